@@ -3,10 +3,13 @@
    the generated cases. Families: "H" header material (timestamp map, STYLE block, regions, header trail, EOL, BOM),
    "C" cue structure (ids, comments, settings, voices, tag stacks, inline timestamps, hours, tabs),
    "P" pairs of cues (tag stack / comment / id state between cues). *)
-EXTENDS VttCodec
+EXTENDS VttCodec, IOUtils
 CONSTANT FAM
 VARIABLES g, d
 vars == <<g, d>>
+
+\* GEN_WIDE=1 (thorough tier): the families range over the whole space of rendering choices / wider truth sets
+Wide == "GEN_WIDE" \in DOMAIN IOEnv /\ IOEnv.GEN_WIDE = "1"
 
 Tb == [name |-> "b", cls |-> <<>>, ann |-> 0]
 Ti == [name |-> "i", cls |-> <<>>, ann |-> 0]
@@ -49,7 +52,8 @@ TruthsP == {[BaseG EXCEPT !.cues = <<[SimpleCue(0, 1000) EXCEPT !.id = i1, !.not
               i1 \in {0, 5}, i2 \in {0, 9}, n1 \in {<<>>, <<1>>}, n2 \in {<<>>, <<2>>}, s1 \in StacksSmall, s2 \in StacksSmall, v2 \in {0, 1}}
 
 Truths(fam) == CASE fam = "H" -> TruthsHOK [] fam = "C" -> TruthsC [] fam = "P" -> TruthsP
-Vars(fam) == CASE fam = "H" -> [AllVars EXCEPT !.hrs = {TRUE}, !.tabs = {FALSE}]
+Vars(fam) == IF Wide THEN AllVars ELSE
+             CASE fam = "H" -> [AllVars EXCEPT !.hrs = {TRUE}, !.tabs = {FALSE}]
                [] fam = "C" -> [AllVars EXCEPT !.trails = {FALSE}, !.eols = {"lf"}, !.boms = {FALSE}]
                [] fam = "P" -> [AllVars EXCEPT !.trails = {FALSE}, !.eols = {"crlf"}, !.boms = {TRUE}, !.hrs = {FALSE}, !.tabs = {FALSE}]
 
